@@ -328,6 +328,17 @@ func init() {
 				}
 				lz.Emit(func() string { c04Family = kind; return evPayload(src) + " @@ " + evPayload(altSrc) })
 			}
+			// a case on which the code as it is deviates from the property in a KNOWN way: the model evaluates the
+			// program as it is (result) and the program that says what the property demands (spec=); kf=<id>
+			emitKF := func(kind, id, src, specSrc string) {
+				g.Count(kind)
+				if c04FamilyHung(kind) {
+					g.Count("skipped after a HANG in the family")
+					lz.Emit(func() string { return "skip" })
+					return
+				}
+				lz.Emit(func() string { c04Family = kind; return evPayload(src) + " @kf:" + id + "@ " + evPayload(specSrc) })
+			}
 			// (0) corpus: inputs of the repaired defects and directed cases
 			for _, s := range []string{
 				"a := 3\nfor a > 0 {\na := a - 1\nx.mark(a)\nbreak\n}\nx.mark(9)",                                         // a91b5f8
@@ -674,12 +685,23 @@ func init() {
 			} {
 				emit("may not parse: clause orders and malformed clause heads", pr+"\nx.mark(98)\n99")
 			}
+			// (3i-kf) an iterator returned by a FUNCTION: the loop calls the function again every round, the range
+			// starts afresh inside it and the variable is bound to the call's result (nil): the loop never ends by
+			// itself (bounded here by a counter). The property wants one round per element of the range.
+			for _, rb := range []struct{ decl, call, direct string }{
+				{"func r() {\nreturn range(1, 2)\n}\n", "r()", "range(1, 2)"},
+				{"func r() {\nrange(1, 2)\n}\n", "r()", "range(1, 2)"},
+				{"func r(n) {\nreturn range(n)\n}\n", "r(3)", "range(3)"},
+				{"func r(a, b) {\nreturn range(a, b, -1)\n}\n", "r(3, 1)", "range(3, 1, -1)"},
+			} {
+				loop := func(it string) string {
+					return rb.decl + "c := 0\nfor i in " + it + " {\nc := c + 1\nx.mark(i)\nif c > 4 {\nbreak\n}\n}\nx.mark(98)\n99"
+				}
+				emitKF("known finding: iterator returned by a function", "iterator-returned-by-function", loop(rb.call), loop(rb.direct))
+			}
 			// (3i) an iterator signal that crosses a call or an operator: the loop variable is bound to the RESULT
 			// of the iterable (nil), not to the iterator's current value
 			for _, pr := range []string{
-				"func r() {\nreturn range(1, 2)\n}\nc := 0\nfor i in r() {\nc := c + 1\nx.mark(i)\nif c > 2 {\nbreak\n}\n}",
-				"func r() {\nrange(1, 2)\n}\nc := 0\nfor i in r() {\nc := c + 1\nx.mark(i)\nif c > 2 {\nbreak\n}\n}",
-				"func r(n) {\nx.mark(n)\nreturn range(n)\n}\nc := 0\nfor i in r(3) {\nc := c + 1\nx.mark(i)\nif c > 3 {\nbreak\n}\n}",
 				"c := 0\nfor i in range(3) + 1 {\nc := c + 1\nx.mark(i)\nif c > 5 {\nbreak\n}\n}",
 				"c := 0\nfor i in not range(1, 2) {\nc := c + 1\nx.mark(i)\nif c > 5 {\nbreak\n}\n}",
 				"for [a] in [[1], [2]] {\nx.mark(a)\n}",
